@@ -572,16 +572,19 @@ Proof.
                   aligned (map (fun l => split_ws (strip l)) text) out).
   { clear H. intros H.
     destruct (Z.eq_dec nfolds 1) as [E1|N1].
-    - subst nfolds. rewrite fold_one_fold in H. cbn [bind fst snd] in H.
+    - subst nfolds.
+      destruct text as [|l0 text0]; [rewrite fold_empty_raises in H; discriminate|].
+      set (text := l0 :: text0) in *.
+      rewrite fold_one_fold in H by (subst text; discriminate). cbn [bind fst snd] in H.
       destruct (mapM (do_puddle w f) [text]) as [segs|e] eqn:E; [|discriminate].
       cbn [bind] in H. pose proof (mapM_do_puddle _ _ Hw E) as HF.
       inversion HF as [|? o ? segs' Ho Hnil]; subst. inversion Hnil; subst.
       rewrite unfold_single in H. cbn [bind] in H. inversion H; subst.
       rewrite (line_ok_filter _ _ Ho). now apply line_ok_aligned.
     - destruct (Z_lt_le_dec nfolds 1) as [Hlt|Hge].
-      { rewrite fold_errors in H by (auto; lia). discriminate. }
+      { rewrite fold_errors in H by lia. discriminate. }
       destruct (Z_lt_le_dec (Z.of_nat (length text)) nfolds) as [Hlt2|Hle2].
-      { rewrite fold_errors in H by (auto; lia). discriminate. }
+      { rewrite fold_errors in H by lia. discriminate. }
       rewrite fold_default_ok in H by lia. cbn [bind] in H.
       set (b := default_bounds (length text) (Z.to_nat nfolds)) in *.
       assert (Hv : valid_bounds b) by (apply default_bounds_valid; lia).
